@@ -258,3 +258,5 @@ def subchecks():
 
 
 SELECTORS = {}
+
+FUZZ = [("conversion_paths", 3000)]
